@@ -178,16 +178,15 @@ pub struct IncludeId(pub SyntaxNodePtr);
 fn list_includes(root_node: SyntaxNode) -> Vec<(IncludeId, EcoString)> {
     (|| -> Option<_> {
         let source_file = ast::SourceFile::cast(root_node)?;
-        let stmt_list = source_file.statement_list()?;
-        let include_paths = stmt_list
-            .statements()
-            .filter_map(|stmt| match stmt {
-                ast::Statement::Include(include) => {
-                    let id = IncludeId(SyntaxNodePtr::new(include.syntax()));
-                    let path = include.path()?.value();
-                    Some((id, path))
-                }
-                _ => None,
+        // an include may also stand inside a let, foreach, if or defset block
+        let include_paths = source_file
+            .syntax()
+            .descendants()
+            .filter_map(ast::Include::cast)
+            .filter_map(|include| {
+                let id = IncludeId(SyntaxNodePtr::new(include.syntax()));
+                let path = include.path()?.value();
+                Some((id, path))
             })
             .collect();
         Some(include_paths)
